@@ -100,6 +100,14 @@ def fam_history(seed, n, all_statuses=True):
     for j, sig in enumerate([256, 265, 271, -241, 65536 + 9, 2 ** 31 - 1, -(2 ** 31)]):
         out.append({"id": "h-badsig%d" % j, "exit": {"k": "exited", "v": 3, "at": None},
                     "ops": [["poll"], ["send_signal", sig], ["poll"], ["send_signal", sig], ["kill"], ["wait"]], "drop": True})
+    # the application ignores SIGCHLD: the kernel reaps the child the moment it exits, no status can be had -- and none is
+    # made up
+    for j, (st, ops) in enumerate([
+        ({"k": "exited", "v": 7}, [["poll"], ["delay", 20 * MS], ["poll"], ["wait"], ["exit_status"], ["pid"]]),
+        ({"k": "signaled", "v": 15}, [["wait_timeout", 50 * MS], ["wait"], ["poll"]]),
+        ({"k": "exited", "v": 0}, [["delay", 20 * MS], ["wait"], ["terminate"], ["poll"]]),
+    ]):
+        out.append({"id": "h-sigchld%d" % j, "exit": dict(st, at=10 * MS), "xreap": 0, "sigchld_ign": True, "ops": ops, "drop": True})
     # job control: a stopped child is alive -- no status may be reported for it
     for j, ops in enumerate([
         [["send_signal", 19], ["poll"], ["pid"], ["wait_timeout", 5 * MS], ["send_signal", 18], ["poll"], ["kill"], ["wait"]],
